@@ -48,6 +48,17 @@ def r16_1(ctx: Ctx) -> None:
                                         n.kind == "stmt" and isinstance(n.ast, ast.Raise) and isinstance(n.ast.exc, ast.Call)
                                         and dotted(n.ast.exc.func) == "ValueError" for n in reach):
                                     raises = True
+            if not raises:
+                # the gate may refuse for more reasons than one (`not check(name) or <other refusal>`): whenever the check fails the test holds, and its
+                # true edge raises ValueError
+                for tn in cfg.nodes:
+                    if tn.kind == "test" and shared.on_when(f, tn.ast, lambda x: isinstance(x, ast.UnaryOp) and isinstance(x.op, ast.Not) and isinstance(x.operand, ast.Call)
+                                                             and attr_tail(x.operand) == "check_archive_path"):
+                        edge = next((s_ for s_ in tn.succ if s_.kind == "true"), None)
+                        reach = cfg.reachable_from(edge) if edge else set()
+                        if edge and cfg.exit not in reach and any(n.kind == "stmt" and isinstance(n.ast, ast.Raise) and isinstance(n.ast.exc, ast.Call)
+                                                                  and dotted(n.ast.exc.func) == "ValueError" for n in reach):
+                            raises = True
             ctx.check(bool(gate) and same_arg and raises, "R16.1", f, d, f"{pub}: check_archive_path gate dominates {priv}; rejection raises ValueError",
                       f"{pub} reaches {priv} without a true check_archive_path(<same name>) guard, or the rejecting branch does not raise ValueError")
             # nothing state-changing before the gate: no attribute stores / appends before the delegate
@@ -437,7 +448,55 @@ def r16_14(ctx: Ctx, rule: str = "R16.14") -> None:
                   "writeall('.') is stored as the file member '.', and extractall() of that archive dies with IsADirectoryError", construct="file stored under the empty name")
 
 
+def r16_15(ctx: Ctx, rule: str = "R16.15") -> None:
+    """(a) a drive prefix is looked for in what the name RESOLVES to as well: 'a/../c:/x' is 'c:/x'.  check_archive_path has a drive test
+    (`X[1] == ":"`) on a value that went through normpath, and its true arm refuses.  (b) a name of which nothing is left ('', '.', 'a/..')
+    denotes the root of the archive: writestr/writef refuse it (a test that compares the normalised name with '.' in the raising gate,
+    directly or through a helper of the package) - stored as the file member '.', it makes an archive that cannot be extracted."""
+    f = ctx.prog.func("helpers", "check_archive_path")
+    cfg = cfg_of(f.node)
+    ok = False
+    for t in cfg.nodes:
+        if t.kind != "test":
+            continue
+        for x in ast.walk(t.ast):
+            if isinstance(x, ast.Compare) and isinstance(x.left, ast.Subscript) and isinstance(x.left.slice, ast.Constant) and x.left.slice.value == 1 \
+                    and any(isinstance(k, ast.Constant) and k.value == ":" for k in x.comparators) and isinstance(x.left.value, ast.Name):
+                if q.derives_from(f, x.left.value, lambda v: isinstance(v, ast.Call) and (dotted(v.func) or "").endswith("normpath"), depth=3) and any(
+                        e.kind == "true" and any(isinstance(n_.ast, ast.Return) and isinstance(n_.ast.value, ast.Constant) and n_.ast.value.value is False for n_ in e.succ) for e in t.succ):
+                    ok = True
+    ctx.check(ok, rule, f, f.node, "the drive test is applied to what the name resolves to",
+              "check_archive_path looks for a drive prefix at the front of the raw text only: 'a/../c:/x', 'a/b/../../c:/x' (accepted, stored verbatim) resolve to 'c:/x', "
+              "an absolute name where drives exist, while 'c:/x' itself is refused", construct="drive prefix after resolution")
+    cls = ctx.prog.cls("SevenZipFile", "py7zr")
+    for name in ("writef", "writestr"):
+        g = shared.szf(ctx, name)
+        gcfg = cfg_of(g.node)
+        good = False
+        for t in gcfg.nodes:
+            if t.kind != "test" or not any(e.kind == "true" and q.branch_always_raises(gcfg, e) for e in t.succ):
+                continue
+            def roots(e: ast.AST) -> bool:
+                if any(isinstance(x, ast.Compare) and any(isinstance(k, ast.Constant) and k.value == "." for k in x.comparators) for x in ast.walk(e)) and any(
+                        isinstance(x, ast.Call) and (dotted(x.func) or "").endswith("normpath") for x in ast.walk(e)):
+                    return True
+                for c in [x for x in ast.walk(e) if isinstance(x, ast.Call) and isinstance(x.func, ast.Name)]:
+                    try:
+                        h = ctx.prog.func("helpers", c.func.id)
+                    except Exception:
+                        continue
+                    if any(isinstance(x, ast.Compare) and any(isinstance(k, ast.Constant) and k.value == "." for k in x.comparators) for x in walk(h.node)) and any(
+                            isinstance(x, ast.Call) and (dotted(x.func) or "").endswith("normpath") for x in walk(h.node)):
+                        return True
+                return False
+            good = good or any(pol and roots(a) for a, pol in q.atoms(t.ast, True))
+        ctx.check(good, rule, g, g.node, f"{name} refuses a name that denotes the root of the archive",
+                  f"{name}() accepts '', '.', './', 'a/..': the data is stored as the file member '.' (or 'a/..'), and extractall() of the archive dies with IsADirectoryError - "
+                  "the members written before and after the call are lost to the reader (write() refuses the same names)", construct=f"{name} root name")
+
+
 def run(ctx: Ctx) -> None:
+    r16_15(ctx)
     r16_14(ctx)
     r16_12(ctx)
     from . import c02 as _c02
